@@ -195,7 +195,81 @@ def evaluate(plan, ctx):
     return Result(nt, ev, skipped)
 
 
-SUBCHECKS = [SubCheck("collisions", strategy, evaluate, quick=5000, thorough=80000)]
+# ---- one training call with tens of thousands of rows (a tiled block): paths that only open up for large calls ------
+
+@st.composite
+def big_plan_st(draw, tier):
+    kind, arms = draw(gen.arms_st(("int", "str"), 2, 4))
+    lp = draw(st.sampled_from([["EpsilonGreedy", {"epsilon": 0}], ["UCB1", {"alpha": 1}]]))
+    nj = draw(st.sampled_from([1, 1, 2]))
+    d = draw(st.integers(1, 3))
+    cfg = {"arms": arms, "lp": lp,
+           "np": ["LSHNearest", {"n_dimensions": draw(st.sampled_from([2, 3, 4, 6, 8])),
+                                 "n_tables": draw(st.integers(1, 3))}],
+           "seed": draw(st.integers(0, 2 ** 20)), "n_jobs": nj, "backend": "threading" if nj > 1 else None,
+           "arm_kind": kind}
+    nb = draw(st.sampled_from([5, 7, 9, 11]))            # block length (odd: no power of two divides the period)
+    nz = st.integers(-4, 4).filter(lambda v: v != 0)
+    block_cx = [[draw(nz)] + [draw(st.integers(-4, 4)) for _ in range(d - 1)] for _ in range(nb)]
+    block_dec = [draw(st.sampled_from(arms)) for _ in range(nb)]
+    block_rew = [draw(st.integers(-8, 8)) for _ in range(nb)]
+    total = draw(st.sampled_from([2 ** 16 + 1, 2 ** 16 + 4000, 70000, 2 ** 17 + 3]))
+    times = -(-total // nb)
+    in_fit = draw(st.booleans())        # the large call is the fit, or a partial_fit after a small fit
+    queries = [list(block_cx[draw(st.integers(0, nb - 1))]) for _ in range(draw(st.integers(1, 3)))]
+    return {"config": cfg, "block": [block_dec, block_rew, block_cx], "times": times, "in_fit": in_fit,
+            "queries": queries}
+
+
+def big_strategy(tier, ctx):
+    return big_plan_st(tier)
+
+
+def evaluate_big(plan, ctx):
+    from mabwiser.mab import MAB
+    cfg = plan["config"]
+    bd, br, bc = plan["block"]
+    t = plan["times"]
+    mab = ops.build(cfg)
+    if plan["in_fit"]:
+        history = [["fit_tiled", bd, br, bc, t]]
+    else:
+        history = [["fit", bd, br, bc], ["partial_fit_tiled", bd, br, bc, t]]
+    for op in history:
+        o = ops.apply_op(mab, op)
+        if ops.is_exc(o):
+            raise Violation("unexpected_exception", "%s raised %s" % (op[0], ops.short(o)),
+                            bucket="unexpected_exception:" + o[1])
+    reps = t + (0 if plan["in_fit"] else 1)
+    X = np.tile(np.asarray(bc, dtype=float), (reps, 1))
+    dec = np.asarray(list(bd) * reps)
+    rew = np.asarray(list(br) * reps, dtype=float)
+    planes = {k: np.array(p, dtype=float) for k, p in mab._imp.table_to_plane.items()}
+    ev = ["rows=%d" % len(X), "n_jobs=%d" % cfg["n_jobs"], "large_call=" + ("fit" if plan["in_fit"] else "partial_fit")]
+    for q in plan["queries"]:
+        mask = np.zeros(len(X), dtype=bool)
+        for P in planes.values():
+            proj, pq = X @ P, np.asarray(q, dtype=float) @ P
+            if np.any(np.abs(proj) < 1e-9) or np.any(np.abs(pq) < 1e-9):
+                return Result(False, ev + ["ambiguous_projection"], skipped=True)
+            mask |= np.all((proj > 0) == (pq > 0), axis=1)
+        out = ops.apply_op(mab, ["predict_expectations", [q]])
+        if ops.is_exc(out):
+            raise Violation("unexpected_exception", "predict_expectations(%r) raised %s" % (q, ops.short(out)),
+                            bucket="unexpected_exception:" + out[1])
+        fresh = MAB(list(cfg["arms"]), ops.make_lp(cfg["lp"]), None, cfg["seed"])
+        fresh.fit(dec[mask], rew[mask])
+        want = ops.canon_expectations(fresh.predict_expectations())
+        if not ops.same(out[1], want, rtol=1e-12, atol=1e-12):
+            raise Violation("collision_set_value", "query %r after one call with %d rows: library %s, the policy "
+                            "trained on the %d colliding rows gives %s" % (q, len(X), ops.short(out[1]),
+                                                                           int(mask.sum()), ops.short(want)),
+                            bucket="collision_set_value:large_call")
+    return Result(True, ev)
+
+
+SUBCHECKS = [SubCheck("collisions", strategy, evaluate, quick=5000, thorough=80000),
+             SubCheck("bigcall", big_strategy, evaluate_big, quick=48, thorough=480, shrink=False)]
 KNOWN = {}
 
 MANIFEST = {
